@@ -34,6 +34,9 @@ def ExtPerm : DExpr → Prop
   | .app1 f d => ExtPerm d ∧ ∀ x y, x.WF → DSEquiv x y → REquiv (f x) (f y)
   | .app2 f a b => ExtPerm a ∧ ExtPerm b ∧
       ∀ x y x' y', x.WF → y.WF → DSEquiv x x' → DSEquiv y y' → REquiv (f x y) (f x' y')
+  | .app3 f a b c => ExtPerm a ∧ ExtPerm b ∧ ExtPerm c ∧
+      ∀ x y z x' y' z', x.WF → y.WF → z.WF → DSEquiv x x' → DSEquiv y y' → DSEquiv z z' →
+        REquiv (f x y z) (f x' y' z')
 
 theorem rows_rel (f : Row → R (Option Row)) {rows rows' : List Row} (hp : rows.Perm rows') :
     Rel2 Perm (mapRows f rows) (mapRows f rows') := mapRows_perm f hp
@@ -242,6 +245,27 @@ theorem evalD_perm (env env' : Env) (w : EnvWF env) (w' : EnvWF env') (hee : Env
           · rw [hyb] at h1; cases h1
             rw [h2']
             exact hp.2.2 x y x' y' (evalD_WF env w a x hw.1 hxa) (evalD_WF env w b y hw.2.1 hyb) hxx hyy
+
+  | app3 f a b c iha ihb ihc =>
+    intro hw hp
+    simp only [evalD]
+    have key : ∀ (d : DExpr), ExtWF d → REquiv (evalD env d) (evalD env' d) →
+        (∃ e e', evalD env d = .error e ∧ evalD env' d = .error e') ∨
+        (∃ x x', evalD env d = .ok x ∧ evalD env' d = .ok x' ∧ DSEquiv x x' ∧ x.WF) := by
+      intro d hd hr
+      rcases hr with ⟨e, e', h1, h2⟩ | ⟨x, x', h1, h2, hxx⟩
+      · exact Or.inl ⟨e, e', h1, h2⟩
+      · exact Or.inr ⟨x, x', h1, h2, hxx, evalD_WF env w d x hd h1⟩
+    rcases key a hw.1 (iha hw.1 hp.1) with ⟨e, e', h1, h2⟩ | ⟨x, x', h1, h2, hxx, wx⟩
+    · rw [h1, h2]; exact Rel2.error _ _
+    · rw [h1, h2]
+      rcases key b hw.2.1 (ihb hw.2.1 hp.2.1) with ⟨e, e', h3, h4⟩ | ⟨y, y', h3, h4, hyy, wy⟩
+      · rw [h3, h4]; exact Rel2.error _ _
+      · rw [h3, h4]
+        rcases key c hw.2.2.1 (ihc hw.2.2.1 hp.2.2.1) with ⟨e, e', h5, h6⟩ | ⟨z, z', h5, h6, hzz, wz⟩
+        · rw [h5, h6]; exact Rel2.error _ _
+        · rw [h5, h6]
+          exact hp.2.2.2 x y z x' y' z' wx wy wz hxx hyy hzz
 
 /-- corollary in the property's words: permuting the rows of the inputs leaves a successful result
 unchanged as a set of datapoints (same structure, `Perm`-equal rows), and a failing run fails. -/
